@@ -14,7 +14,9 @@ RULE = (
     "calls: signatures of length 0-3 (exhaustive; random ones up to length 4) over the parameter kinds {QUBIT, "
     "REGISTER, INT, FLOAT, NONE} and argument lists whose entries range over the value classes {NamedQubit, "
     "Register, int, integral float, non-integral float, non-finite float, INT Constant, integral FLOAT Constant, "
-    "non-integral FLOAT Constant, Parameter of each kind, str, None, arbitrary Python objects}, with right and wrong arity: the positional call is "
+    "non-integral FLOAT Constant, Parameter of each kind, str, None, arbitrary Python objects}, with right and wrong arity, on a fresh "
+    "definition and on one that has already accepted a fitting call with arguments of the same Python types (an "
+    "integral float for INT): the positional call is "
     "accepted exactly when the arity matches and every argument fits its parameter's kind (reference `fits` from "
     "the property text), a rejection is a JaqalError, and the keyword call (keywords in shuffled order) gives an == "
     "statement whose parameters are in declaration order; a wrong or extra keyword and a mixed positional/keyword "
@@ -128,8 +130,16 @@ def call_case(case):
     if arity_ok and any(j is None for j in judged) and all(j is not False for j in judged):
         raise Skip()
     expect = arity_ok and all(j is True for j in judged)
-    st_, r = guard(gd, *vals, what="gate call")
     desc = f"signature {sig}, arguments {vcs} = {[repr(v) for v in vals]}"
+    if case.get("warm"):
+        # the definition has been USED before: a fitting call whose arguments have the same Python
+        # types as values that do not fit (an integral float for INT).  A definition checks every
+        # call; it does not learn from the calls it accepted.
+        st_, r0 = guard(gd, *[value(_WARM[k], 7 + i) for i, k in enumerate(sig)], what="gate call (fitting, first use)")
+        if st_ == "err":
+            raise Violation("fitting-call-rejected", f"first use of the definition, {[_WARM[k] for k in sig]}: {r0}\n{desc}", where="first-use")
+        desc += " (the definition had accepted a fitting call before)"
+    st_, r = guard(gd, *vals, what="gate call")
     if expect and st_ == "err":
         raise Violation("fitting-call-rejected", f"{r}\n{desc}", where=_first_bad(sig, vcs, True))
     if not expect and st_ == "ok":
@@ -164,7 +174,11 @@ def call_case(case):
             if st3 == "ok":
                 raise Violation("mixed-call-accepted", desc)
     boundary = any(vc in ("float-integral", "const-float-integral", "float-nonfinite", "param-NONE") for vc in vcs) and len(set(sig)) >= 2
-    return {"nontrivial": boundary, "classes": ["arity:%+d" % (len(vcs) - len(sig)), "expect:" + ("accept" if expect else "reject")], "key": repr((sig, vcs, case.get("macro"))), "sample": {"signature": sig, "arguments": vcs, "accepted": expect}}
+    return {"nontrivial": boundary, "classes": ["arity:%+d" % (len(vcs) - len(sig)), "expect:" + ("accept" if expect else "reject")] + (["definition-used-before"] if case.get("warm") else []), "key": repr((sig, vcs, case.get("macro"), bool(case.get("warm")))), "sample": {"signature": sig, "arguments": vcs, "accepted": expect}}
+
+
+# per kind, a fitting value class of the Python type that also carries unfitting values
+_WARM = {"QUBIT": "qubit", "REGISTER": "register", "INT": "float-integral", "FLOAT": "float", "NONE": "float"}
 
 
 def _first_bad(sig, vcs, want):
@@ -182,6 +196,9 @@ def _enum_calls(tier):
         for sig in itertools.product(KINDS, repeat=n):
             for vcs in itertools.product(VCLASSES, repeat=n):
                 yield {"sig": list(sig), "args": list(vcs), "variant": (len(sig) * 7 + sum(map(len, vcs))) % 5}
+                if 1 <= n <= 2:
+                    # the same call on a definition that has been used (fittingly) before
+                    yield {"sig": list(sig), "args": list(vcs), "variant": (len(sig) * 7 + sum(map(len, vcs))) % 5, "warm": True}
             # wrong arity
             for m in (n - 2, n - 1, n + 1, n + 2):
                 if m < 0:
@@ -200,7 +217,7 @@ def _random_call(ch):
             vcs.append(ch.pick(good))
         else:
             vcs.append(ch.pick(VCLASSES))
-    return {"sig": sig, "args": vcs, "variant": ch.int(0, 11), "macro": ch.int(0, 3) == 0}
+    return {"sig": sig, "args": vcs, "variant": ch.int(0, 11), "macro": ch.int(0, 3) == 0, "warm": m == n and n > 0 and ch.int(0, 2) == 0}
 
 
 # ------------------------------------------------------------------------------ idle gates
